@@ -354,6 +354,56 @@ fn dyn_weight_extremes(g: &mut Xo, rep: &mut Report) {
     }
 }
 
+/// A dynamic weighted list that is *used while it is being built*: selections - also failing
+/// ones, on an all-zero list or on an empty population - happen between extensions, and every
+/// selection is judged against the members and weights the list has at that moment.
+fn dyn_staged(g: &mut Xo, rep: &mut Report) {
+    use ec_core::operator::selector::dyn_weighted::DynWeighted;
+    let n = 1 + g.usize_below(6);
+    let pop = gen_population(g, n, 2);
+    let empty: Pop = Vec::new();
+    let pick_w = |g: &mut Xo| *g.pick(&[0usize, 0, 0, 1, 3]);
+    let mut weights = vec![pick_w(g)];
+    let mut d: DynWeighted<Pop> = DynWeighted::new(Best, weights[0]);
+    let stages = 1 + g.usize_below(4);
+    for stage in 0..=stages {
+        for _ in 0..g.usize_below(3) {
+            let on_empty = g.chance(1, 4);
+            let out = observe_select(&d, if on_empty { &empty } else { &pop }, &mut TraceRng::stream(g.next()));
+            rep.eval();
+            rep.count(&format!("DynWeighted-staged:{}", out.kind()));
+            rep.distinct(mix(fnv_str("dyn-staged"), fnv_str(&format!("{weights:?}{on_empty}{n}"))));
+            let total: usize = weights.iter().sum();
+            let verdict = match &out {
+                SelOut::Panic(p) => Err(format!("panic: {p}")),
+                SelOut::Foreign => Err("not an element of the population".to_string()),
+                SelOut::Err(t) if total == 0 => {
+                    if err_tokens(t).iter().any(|x| *x == "ZeroWeight" || *x == "InsufficientNonZero") { Ok(()) } else { Err(format!("all weights are zero at this stage: a zero-weight error is documented, got {t}")) }
+                }
+                SelOut::Member(_) if total == 0 => Err("all weights are zero at this stage but the list selected".to_string()),
+                SelOut::Err(t) if on_empty => {
+                    if err_tokens(t).iter().any(|x| *x == "EmptyPopulation") { Ok(()) } else { Err(format!("empty population: the members report EmptyPopulation, got {t}")) }
+                }
+                SelOut::Member(_) if on_empty => Err("selected from an empty population".to_string()),
+                SelOut::Err(t) => Err(format!("positive total weight, non-empty population, members that cannot fail - but the list refused to select: {t}")),
+                SelOut::Member(_) => Ok(()),
+            };
+            if let Err(why) = verdict {
+                rep.violation(format!("C06/DynWeighted(staged)/{}", aspect(&out)), || json!({"weights_at_this_stage": weights, "stage": stage, "population_size": if on_empty { 0 } else { n }, "why": why}));
+            }
+        }
+        if stage < stages {
+            let w = pick_w(g);
+            weights.push(w);
+            d = match g.below(3) {
+                0 => d.with_selector(Best, w),
+                1 => d.with_selector(Worst, w),
+                _ => d.with_selector(Random, w),
+            };
+        }
+    }
+}
+
 fn large_population(g: &mut Xo, rep: &mut Report) {
     let n = match g.below(6) {
         0 => 10 + g.usize_below(30),
@@ -441,6 +491,9 @@ pub fn run(args: &Args) -> i32 {
             }
             if r % 16 == 0 {
                 dyn_weight_extremes(&mut g, &mut rep);
+            }
+            if r % 2 == 0 {
+                dyn_staged(&mut g, &mut rep);
             }
         }
         rep
